@@ -143,7 +143,7 @@ let oracle_dev (dev : dev) (cfg : Model.cfg) (hooks : Model.hooks) (steps : Sexp
         match List.find_opt (fun (c, _) -> c = bytes_of_atom cid) hooks.Model.h_will with
         | None | Some (_, Model.MAccept) -> Some w
         | Some (_, Model.MDrop) -> hit "H"; None
-        | Some (_, Model.MRewrite (t, p, q)) -> hit "H"; Some { w with wt = atom_of_bytes t; wp = atom_of_bytes p; wq = int_of_n q }
+        | Some (_, Model.MRewrite (t, p, q)) -> hit "H"; Some { w with wt = atom_of_bytes t; wp = atom_of_bytes p; wq = int_of_n q mod 4; wr = (match int_of_n q / 4 with 0 -> w.wr | 1 -> false | _ -> true) }
         | Some (_, Model.MReject _) -> raise (Oof "reject in will hook") in
     match w' with
     | None -> ()
